@@ -28,6 +28,10 @@ For ALL ordered segment lists, options, separation distances and solver outputs:
   `satisfied_no_retry`         a satisfied round ends the loop with distance and constraints unchanged;
   `unify_only_free_equalities` the unifying pass only ever adds equalities (gap 0) between two different
                                variables of weight freeWeight (∀ solver answers);
+  `region_formation_closed`, `regions_do_not_overlap`, `overlapsWith_symm`
+                               the loop that grows a region (restart after every addition) ends closed, so no
+                               segment of a later region overlaps one of an earlier region (soundness of the
+                               cross-region check of the driver), ∀ overlap predicates and lists;
   `linesort_respects_rules`    the insertion sort `linesort`, with ANY comparator that agrees with the position /
                                fixedOrder / order rules of `CmpLineOrder`, never violates the order check the
                                driver applies to every dumped region (soundness of that check);
@@ -316,6 +320,46 @@ example :
          ⟨3, 60, 160, 5, 0, 50, false, false, false, false, false, true, []⟩])
       [15, 17, 25]).map (fun out => (out.retry, out.next.cons, out.next.pots)) =
     some (true, [⟨0, 1, 0, true⟩], [(0, 1), (1, 2), (0, 2)]) := by
+  decide +kernel
+
+/-! ### region formation: soundness of the cross-region check the driver runs on every pass -/
+
+/-- `overlapsWith` is symmetric -/
+theorem overlapsWith_symm (o : ROpts) (a b : RSeg) : overlapsWith o a b = overlapsWith o b a := by
+  unfold overlapsWith limitsMeet
+  by_cases h1 : a.lo < b.hi <;> by_cases h2 : b.lo < a.hi <;> by_cases h3 : a.minLim ≤ b.maxLim <;>
+    by_cases h4 : b.minLim ≤ a.maxLim <;> by_cases h5 : a.lo = b.hi <;> by_cases h6 : b.lo = a.hi <;>
+    by_cases h7 : b.conn = a.conn <;> simp [h1, h2, h3, h4, h5, h6, h7] <;> grind
+
+/-- the loop that grows `currentRegion` (restart after every addition), ∀ overlap predicates and lists:
+    when it stops, no segment left in the list overlaps any segment of the region -/
+theorem region_formation_closed {α : Type} (ov : α → α → Bool) (l : List α) :
+    ∀ x ∈ (formRegion ov l).2, ∀ t ∈ (formRegion ov l).1, ov x t = false := by
+  cases l with
+  | nil => intro x hx; cases hx
+  | cons y rest => exact formLoop_closed ov rest.length [y] rest (Nat.le_refl _)
+
+/-- hence no segment of a later region of the pass overlaps a segment of an earlier one: the check the
+    driver applies to the dumped regions of every pass cannot alarm on a correct implementation -/
+theorem regions_do_not_overlap {α : Type} (ov : α → α → Bool) : ∀ (fuel : Nat) (l : List α),
+    List.Pairwise (fun r1 r2 => ∀ x ∈ r2, ∀ t ∈ r1, ov x t = false) (formAll ov fuel l) := by
+  intro fuel
+  induction fuel with
+  | zero => intro l; exact List.Pairwise.nil
+  | succ n ih =>
+    intro l
+    cases l with
+    | nil => exact List.Pairwise.nil
+    | cons y rest =>
+      unfold formAll
+      refine List.Pairwise.cons ?_ (ih _)
+      intro r2 hr2 x hx t ht
+      exact region_formation_closed ov (y :: rest) x (formAll_mem ov n _ r2 hr2 x hx) t ht
+
+/-- non-vacuity: three segments, the first and third overlap only through the second: one region of all three
+    (the restart finds the third), a fourth far away forms its own -/
+example : formAll (fun (a b : Nat × Nat) => decide (a.1 < b.2) && decide (b.1 < a.2)) 4 [(0, 10), (18, 30), (8, 20), (50, 60)] =
+    [[(0, 10), (8, 20), (18, 30)], [(50, 60)]] := by
   decide +kernel
 
 /-! ### linesort: soundness of the order check the driver runs on every dumped region -/
